@@ -77,6 +77,9 @@ type Task struct {
 	root    bool
 	parkSeq uint64
 	parks   uint64
+	// SpawnSeq is the global sequence number at which the parent executed
+	// the go statement that created this task (0 for root tasks).
+	SpawnSeq uint64
 }
 
 func (t *Task) String() string { return fmt.Sprintf("%s[%d]", t.Name, t.ID) }
@@ -151,6 +154,7 @@ type Sched struct {
 }
 
 type pendingSpawn struct {
+	seq    uint64
 	id     int
 	parent *Task
 	site   string
@@ -385,7 +389,8 @@ func (s *Sched) Spawn(site string) simhook.Token {
 	if s.draining {
 		return 0
 	}
-	p := &pendingSpawn{id: s.nextID, parent: t, site: site}
+	s.parkSeq++
+	p := &pendingSpawn{id: s.nextID, parent: t, site: site, seq: s.parkSeq}
 	s.nextID++
 	s.pending[site] = append(s.pending[site], p)
 	return simhook.Token(p.id + 1)
@@ -416,7 +421,7 @@ func (s *Sched) Started(site string, tok simhook.Token) {
 		s.mu.Unlock()
 		return
 	}
-	t := &Task{ID: p.id, Name: p.parent.Name + ">" + site, Proc: p.parent.Proc, gid: g}
+	t := &Task{ID: p.id, Name: p.parent.Name + ">" + site, Proc: p.parent.Proc, gid: g, SpawnSeq: p.seq}
 	s.tasks = append(s.tasks, t)
 	s.byGID[g] = t
 	s.mu.Unlock()
